@@ -215,6 +215,9 @@ func genLineTree(r *rng.R, root spec.Kind) *spec.Spec {
 				if r.Chance(1, 8) {
 					key += string(rune([]int{0x2028, 0x2029, 0x85, 0x0b, 0x0c, 0xa0}[r.Intn(6)]))
 				}
+				if r.Chance(1, 8) {
+					key += []string{"\n", "a\nb\n", "\r\n", "\\n"}[r.Intn(4)] // newline characters inside the key (escaped in the text)
+				}
 				s.Set(key, v)
 			}
 		}
@@ -244,7 +247,7 @@ func genErrDoc(r *rng.R, root spec.Kind) *errDoc {
 	e := &errRender{r: r.Fork(), kind: kind, target: target, doc: doc, nlWeight: nlw}
 	// preamble before the root bracket (free of that bracket), possibly with newlines
 	if r.Chance(1, 2) {
-		pre := []string{"// header\n", "\n\n", "garbage text\nmore\n", "  \t", "x = ", "\r\n\r\n", "# a ] b } c\n", strings.Repeat("line\n", 70000), strings.Repeat("\n", 300)}[r.Intn(9)]
+		pre := []string{"// header\n", "\n\n", "garbage text\nmore\n", "  \t", "x = ", "\r\n\r\n", "# a ] b } c\n", strings.Repeat("line\n", 70000), strings.Repeat("\n", 300), "say \"hello\nworld\" twice\n", "\"\n\n\"\n", "'q\n' \"a\nb\nc\" \"\n", "\"unpaired\nquote\n"}[r.Intn(13)]
 		if root == spec.List {
 			pre = strings.ReplaceAll(pre, "[", "(")
 		} else {
